@@ -200,6 +200,11 @@ fn composites() -> Vec<Composite> {
         Composite { label: "Debug of TlsMessage::Alert: description", reg: &iana::ALERT_DESCRIPTION, via_display: false, text: |v| format!("{:?}", TlsMessage::Alert(TlsMessageAlert { severity: TlsAlertSeverity(0xee), code: TlsAlertDescription(v as u8) })) },
         Composite { label: "Debug of supported_groups extension: group", reg: &iana::NAMED_GROUP, via_display: true, text: |v| format!("{:?}", TlsExtension::EllipticCurves(vec![NamedGroup(0x9999), NamedGroup(v as u16)])) },
         Composite { label: "Debug of supported_versions extension: version", reg: &iana::VERSION, via_display: true, text: |v| format!("{:?}", TlsExtension::SupportedVersions(vec![TlsVersion(0x9999), TlsVersion(v as u16)])) },
+        // the same lists with the value under test far from the front (a list is printed whole, however long it is)
+        Composite { label: "Debug of supported_versions extension: version at position 130", reg: &iana::VERSION, via_display: true, text: |v| format!("{:?}", TlsExtension::SupportedVersions((0..130).map(|k| TlsVersion(if k == 129 { v as u16 } else { 0x9999 })).collect())) },
+        Composite { label: "Debug of supported_versions extension: version at position 300", reg: &iana::VERSION, via_display: true, text: |v| format!("{:?}", TlsExtension::SupportedVersions((0..300).map(|k| TlsVersion(if k == 299 { v as u16 } else { 0x9999 })).collect())) },
+        Composite { label: "Debug of supported_groups extension: group at position 300", reg: &iana::NAMED_GROUP, via_display: true, text: |v| format!("{:?}", TlsExtension::EllipticCurves((0..300).map(|k| NamedGroup(if k == 299 { v as u16 } else { 0x9999 })).collect())) },
+        Composite { label: "Debug of server_name extension: name type at position 300", reg: &iana::SNI_TYPE, via_display: true, text: |v| format!("{:?}", TlsExtension::SNI((0..300).map(|k| (SNIType(if k == 299 { v as u8 } else { 0x63 }), &b"a.example"[..])).collect())) },
         Composite { label: "Debug of server_name extension: name type", reg: &iana::SNI_TYPE, via_display: true, text: |v| format!("{:?}", TlsExtension::SNI(vec![(SNIType(v as u8), &b"a.example"[..])])) },
         Composite { label: "Debug of server_name extension: name type (name not UTF-8)", reg: &iana::SNI_TYPE, via_display: true, text: |v| format!("{:?}", TlsExtension::SNI(vec![(SNIType(0x63), &b"ok.example"[..]), (SNIType(v as u8), &[0xff, 0xfe, 0x41, 0xc3][..])])) },
         Composite { label: "Debug of status_request extension: status type", reg: &iana::CERT_STATUS_TYPE, via_display: false, text: |v| format!("{:?}", TlsExtension::StatusRequest(Some((CertificateStatusType(v as u8), &[7u8, 7][..])))) },
@@ -349,6 +354,17 @@ fn conversions(t: &mut Tape, obs: &mut Obs) -> R {
     ensure_eq!(TlsCompressionID(b).leading_zeros(), b.leading_zeros(), sig("TlsCompressionID.leading_zeros()"), "leading_zeros by method syntax");
     ensure_eq!(format!("{}", TlsCipherSuiteID(v)), v.to_string(), sig("TlsCipherSuiteID:Display"), "Display of a cipher id");
     ensure_eq!(format!("{:x}", TlsCipherSuiteID(v)), format!("{:x}", v), sig("TlsCipherSuiteID:LowerHex"), "LowerHex");
+    // ... and under format flags: whether an implementation forwards width / fill / sign to the integer or ignores them (the pinned
+    // tree ignores them for Display) is not the statement's business, but the digits printed are still the raw value - in particular
+    // a precision does not cut them short, as it would for a string
+    let dec = |t: String| t.trim_matches(|c| c == ' ' || c == '*').trim_start_matches('+').parse::<u32>().ok();
+    for (spec, text) in [("{:.3}", format!("{:.3}", TlsCipherSuiteID(v))), ("{:.0}", format!("{:.0}", TlsCipherSuiteID(v))), ("{:.64}", format!("{:.64}", TlsCipherSuiteID(v))), ("{:>8}", format!("{:>8}", TlsCipherSuiteID(v))), ("{:<7.2}", format!("{:<7.2}", TlsCipherSuiteID(v))), ("{:08}", format!("{:08}", TlsCipherSuiteID(v))), ("{:+}", format!("{:+}", TlsCipherSuiteID(v))), ("{:*^9.1}", format!("{:*^9.1}", TlsCipherSuiteID(v)))] {
+        ensure!(dec(text.clone()) == Some(v as u32), sig("TlsCipherSuiteID:Display-flags"), "Display of cipher id {} with format spec {} is {:?}: not the raw value", v, spec, text);
+    }
+    let hex = |t: String| u32::from_str_radix(t.trim().trim_start_matches("0x"), 16).ok();
+    for (spec, text) in [("{:#x}", format!("{:#x}", TlsCipherSuiteID(v))), ("{:08x}", format!("{:08x}", TlsCipherSuiteID(v))), ("{:.2x}", format!("{:.2x}", TlsCipherSuiteID(v))), ("{:>7x}", format!("{:>7x}", TlsCipherSuiteID(v))), ("{:#x} (version)", format!("{:#x}", TlsVersion(v))), ("{:.1x} (version)", format!("{:.1x}", TlsVersion(v))), ("{:06x} (version)", format!("{:06x}", TlsVersion(v)))] {
+        ensure!(hex(text.clone()) == Some(v as u32), sig("LowerHex-flags"), "LowerHex of {} with format spec {} is {:?}: not the raw value", v, spec, text);
+    }
     let dbg = format!("{:?}", TlsCipherSuiteID(v));
     ensure!(dbg.contains(&format!("{:04x}", v)), sig("TlsCipherSuiteID:Debug"), "Debug of cipher id {:#06x} is {:?}", v, dbg);
     ensure_eq!(u16::from(TlsExtensionType(v)), v, sig("TlsExtensionType->u16"), "u16::from(TlsExtensionType)");
